@@ -592,10 +592,35 @@ Section Signatures.
   Lemma accept_wf : forall l r j, accept l r j = true -> wf_row l r = true.
   Proof. intros l r j H. unfold accept in H. apply andb_true_iff in H. apply H. Qed.
 
+  (* an item the service accepts, that is not one of the collisions, is genuine *)
+  Lemma item_verdict_genuine : forall it, item_verdict Hf it = true -> item_collides it = false -> item_genuine it = true.
+  Proof.
+    intros [[[[[k r] j] k0] r0] j0] V C. unfold item_verdict in V. unfold item_collides in C. unfold item_genuine.
+    destruct (layout_of k) as [l|]; [|discriminate V]. destruct (layout_of k0) as [l0|]; [|discriminate V].
+    apply andb_true_iff in V. destruct V as [_ V]. apply bytes_eqb_eq in V. apply Hf_inj in V.
+    assert (E : bytes_eqb (enc l r) (enc l0 r0) = true) by (apply bytes_eqb_eq; exact V).
+    rewrite E in C. cbn [andb] in C. destruct (N.eqb k k0 && row_eqb r r0); [reflexivity | discriminate C].
+  Qed.
+
+  Lemma service_spec : forall batches, existsb (existsb item_collides) batches = false ->
+    forallb (fun bo : list sitem * Z => if Z.eqb (snd bo) 1 then forallb item_genuine (fst bo) else true)
+            (combine batches (map (fun b => zb (batch_verdict Hf b)) batches)) = true.
+  Proof.
+    induction batches as [|b bs IH]; intros K; [reflexivity|].
+    cbn [existsb] in K. apply orb_false_iff in K. destruct K as [Kb Ks].
+    cbn [map combine forallb fst snd]. rewrite (IH Ks), andb_true_r.
+    destruct (batch_verdict Hf b) eqn:V; cbn [zb Z.eqb]; [|reflexivity].
+    unfold batch_verdict in V. rewrite forallb_forall in V. apply forallb_forall. intros it Hit.
+    apply item_verdict_genuine; [apply V; exact Hit|].
+    destruct (item_collides it) eqn:C; [|reflexivity].
+    assert (X : existsb item_collides b = true) by (apply existsb_exists; exists it; split; assumption).
+    rewrite X in Kb. discriminate Kb.
+  Qed.
+
   Theorem run_spec_outside_known : forall c, case_ok c = true -> known_C06_gen Hf c = [] ->
     spec_C06 c (run_C06_gen Hf c) = true.
   Proof.
-    intros c Ok K. destruct c as [k r j | k1 r1 j1 k2 r2 j2 | k r j ch | b | rows init ops nkeys | sops]; cbn [case_ok] in Ok.
+    intros c Ok K. destruct c as [k r j | k1 r1 j1 k2 r2 j2 | k r j ch | b | rows init ops nkeys | sops | batches]; cbn [case_ok] in Ok.
     - cbn [run_C06_gen spec_C06 known_C06_gen] in *. destruct (layout_of k) as [l|]; [|discriminate Ok].
       rewrite rev_app_distr. cbn [rev app].
       destruct (sign_accept l r j) eqn:Sa; cbn [zb Z.eqb negb orb andb]; [|reflexivity].
@@ -624,7 +649,15 @@ Section Signatures.
     - cbn [run_C06_gen spec_C06]. rewrite rev_app_distr. cbn [rev app].
       rewrite (served_rows_verified _ _ _ (peer_stores_verified rows init ops)). reflexivity.
     - reflexivity.
+    - cbn [run_C06_gen spec_C06 known_C06_gen] in *. rewrite map_length, Nat.eqb_refl. cbn [andb].
+      apply service_spec. destruct (existsb (existsb item_collides) batches); [|reflexivity].
+      destruct (existsb _ batches) in K; discriminate K.
   Qed.
+
+  (* the service is stateless: the verdict on a batch does not depend on what was submitted before *)
+  Theorem service_stateless : forall history b,
+    run_C06_gen Hf (CService (history ++ [b])) = run_C06_gen Hf (CService history) ++ [zb (forallb (item_verdict Hf) b)].
+  Proof. intros history b. cbn [run_C06_gen]. rewrite map_app. reflexivity. Qed.
 End Signatures.
 
 (* ------------------------------------------------------------------ the current layouts *)
